@@ -192,3 +192,23 @@ def speak_line_number(speak):
     if m:
         return m.group(1) + m.group(2)
     return None
+
+
+def page_text(pdf_path):
+    """Text shown by the page content streams (Tj / TJ operators), in stream order, whitespace-normalised.
+    Only used to check that a transcribed sentence occurs verbatim in the bundled template."""
+    import re
+    with open(pdf_path, 'rb') as f:
+        data = f.read()
+    out = []
+    for st in inflate_streams(data):
+        if not isinstance(st, (bytes, bytearray)):
+            continue
+        for m in re.finditer(rb'\(((?:[^()\\]|\\.)*)\)\s*Tj|\[((?:[^\]\\]|\\.)*)\]\s*TJ', st):
+            if m.group(1) is not None:
+                out.append(m.group(1))
+            else:
+                out.append(b''.join(re.findall(rb'\(((?:[^()\\]|\\.)*)\)', m.group(2))))
+    text = b' '.join(out).decode('latin1')
+    text = text.replace('\\(', '(').replace('\\)', ')')
+    return re.sub(r'\s+', ' ', text)
